@@ -84,6 +84,19 @@ namespace chaiscript {
 #endif
     }
 
+    /// Division and remainder also trap the CPU when the most negative value is divided by -1
+    template<typename LHS, typename RHS>
+    constexpr static inline void check_divide_overflow([[maybe_unused]] const LHS &t_lhs, [[maybe_unused]] const RHS &t_rhs) {
+#ifndef CHAISCRIPT_NO_PROTECT_DIVIDEBYZERO
+      using Common = decltype(t_lhs + t_rhs);
+      if constexpr (std::is_integral_v<Common> && std::is_signed_v<Common>) {
+        if (static_cast<Common>(t_lhs) == std::numeric_limits<Common>::min() && static_cast<Common>(t_rhs) == static_cast<Common>(-1)) {
+          throw chaiscript::exception::arithmetic_error("integer overflow in division");
+        }
+      }
+#endif
+    }
+
     constexpr static Common_Types get_common_type(size_t t_size, bool t_signed) noexcept {
       return (t_size == 1 && t_signed) ? (Common_Types::t_int8)
           : (t_size == 1)              ? (Common_Types::t_uint8)
@@ -166,6 +179,7 @@ namespace chaiscript {
           return const_var(c_lhs + c_rhs);
         case Operators::Opers::quotient:
           check_divide_by_zero(c_rhs);
+          check_divide_overflow(c_lhs, c_rhs);
           return const_var(c_lhs / c_rhs);
         case Operators::Opers::product:
           return const_var(c_lhs * c_rhs);
@@ -183,6 +197,7 @@ namespace chaiscript {
             return const_var(c_lhs >> c_rhs);
           case Operators::Opers::remainder:
             check_divide_by_zero(c_rhs);
+            check_divide_overflow(c_lhs, c_rhs);
             return const_var(c_lhs % c_rhs);
           case Operators::Opers::bitwise_and:
             return const_var(c_lhs & c_rhs);
@@ -208,6 +223,7 @@ namespace chaiscript {
             return t_bv;
           case Operators::Opers::assign_quotient:
             check_divide_by_zero(c_rhs);
+            check_divide_overflow(c_lhs, c_rhs);
             *t_lhs /= c_rhs;
             return t_bv;
           case Operators::Opers::assign_difference:
@@ -233,6 +249,7 @@ namespace chaiscript {
               return t_bv;
             case Operators::Opers::assign_remainder:
               check_divide_by_zero(c_rhs);
+              check_divide_overflow(c_lhs, c_rhs);
               *t_lhs %= c_rhs;
               return t_bv;
             case Operators::Opers::assign_bitwise_xor:
